@@ -522,6 +522,9 @@ class Interp:
         if op in ("Add", "Sub", "Mul"):
             a = as_poly(self.eval(fr, e["l"]), pp(e["l"]))
             b = as_poly(self.eval(fr, e["r"]), pp(e["r"]))
+            if op in ("Add", "Mul") and e.get("ty") in ("u8", "u16") and not (a.is_const() and b.is_const()):
+                # a field may be 65,535 bytes long: `2 + len as u16` wraps (or panics) inside the valid domain
+                raise Unsupported("length arithmetic `%s` is carried out in %s and can overflow for lengths of the valid domain" % (pp(e)[:80], e["ty"]))
             return {"Add": a + b, "Sub": a - b, "Mul": None}[op] if op != "Mul" else a * b
         if op in ("Eq", "Ne"):
             try:
@@ -878,9 +881,9 @@ class Interp:
                     self.trace.append(("each", fmt_path(src.path), tr_))
                 return UNIT
             raise Unsupported("%s over %r" % (name, src))
-        if name == "from" and len(args) == 1:
-            return self.eval_quiet(fr, args[0])
-        if name == "into" and len(args) == 1:
+        if name in ("from", "into") and len(args) == 1:
+            if (args[0].get("ty") or "").lstrip("&") in ("u8", "u16", "u32", "u64", "usize"):
+                return self.eval(fr, args[0])       # integer widening: problems inside are problems of the length
             return self.eval_quiet(fr, args[0])
         # crate-local functions: inline
         callee = self.F.fns.get(res)
